@@ -785,3 +785,178 @@ def replay(ctx, rep):   # noqa: F811
         common.use_repo()
         return common.scenario_replay(ctx, rep, _xmi_scenarios())
     return _replay2(ctx, rep)
+
+
+# ---------------------------------------------------------------------------
+# containments whose declared type says little about the class of what they hold: typed by EObject ('anything'), by an
+# abstract or concrete super class (direct or indirect), or by the very class of the content.  Every contained object
+# must come back as an instance of ITS OWN class with its own attribute values, in order, and references to such objects
+# (typed by EObject as well) must find them again (own PRNG stream 'C08:open-containment'; oracle: the dump before the save)
+
+def open_containment_scenarios(ctx, out):
+    import os
+    import tempfile
+    from pyecore.ecore import EClass, EAttribute, EReference, EString, EInt, EPackage, EObject
+    from pyecore.resources import ResourceSet, URI
+    rng = common.rng_for(ctx.seed, 'C08:open-containment')
+    n = 60 if ctx.tier != 'thorough' else 1500
+    cnt = objs = anyheld = 0
+    for it in range(n):
+        pkg = EPackage('oc', nsURI=f'http://verif/c08/open/{it}', nsPrefix='oc')
+        # a small inheritance forest: Base (abstract or not) <- Mid* <- Leaf*, plus a holder class
+        Base = EClass('Base', abstract=rng.random() < 0.5)
+        Base.eStructuralFeatures.append(EAttribute('name', EString))
+        classes = [Base]
+        for i in range(rng.randrange(2, 6)):
+            sup = rng.choice(classes)
+            c = EClass(f'K{i}', superclass=(sup,), abstract=False)
+            if rng.random() < 0.6:
+                c.eStructuralFeatures.append(EAttribute(f'n{i}', EInt))
+            classes.append(c)
+        pkg.eClassifiers.extend(classes)
+        concrete = [c for c in classes if not c.abstract]
+        # containment features, declared on Base (so that every object can hold things)
+        kinds = ['any-many', rng.choice(['any-one', 'any-many2']), 'base-many']
+        feats = {}
+        Base.eStructuralFeatures.append(EReference('anyMany', EObject, upper=-1, containment=True))
+        feats['anyMany'] = (None, True)
+        if kinds[1] == 'any-one':
+            Base.eStructuralFeatures.append(EReference('anyOne', EObject, containment=True))
+            feats['anyOne'] = (None, False)
+        else:
+            Base.eStructuralFeatures.append(EReference('anyMore', EObject, upper=-1, containment=True))
+            feats['anyMore'] = (None, True)
+        Base.eStructuralFeatures.append(EReference('baseMany', Base, upper=-1, containment=True))
+        feats['baseMany'] = (Base, True)
+        typed = rng.choice(classes[1:])
+        Base.eStructuralFeatures.append(EReference('typedMany', typed, upper=-1, containment=True))
+        feats['typedMany'] = (typed, True)
+        Base.eStructuralFeatures.append(EReference('typedOne', typed, containment=True))
+        feats['typedOne'] = (typed, False)
+        # references typed by EObject / Base
+        Base.eStructuralFeatures.append(EReference('anyRef', EObject))
+        Base.eStructuralFeatures.append(EReference('anyRefs', EObject, upper=-1))
+        Base.eStructuralFeatures.append(EReference('baseRef', Base))
+        attrs = {c: sorted(a.name for a in c.eAllAttributes()) for c in classes}
+        serial = [0]
+        hist = []
+
+        def new(among):
+            c = rng.choice(among)
+            serial[0] += 1
+            o = c()
+            o.name = f'o{serial[0]}'
+            for a in attrs[c]:
+                if a != 'name' and rng.random() < 0.7:
+                    setattr(o, a, rng.randrange(-5, 100))
+            return o
+
+        def conforming(t):
+            return concrete if t is None else [c for c in concrete if c is t or t in c.eAllSuperTypes()]
+
+        roots = [new(concrete) for _ in range(rng.choice([1, 1, 2]))]
+        live = list(roots)
+        for _ in range(rng.randrange(3, 14)):
+            p = rng.choice(live)
+            f = rng.choice(sorted(feats))
+            t, many = feats[f]
+            among = conforming(t)
+            if not among:
+                continue
+            k = new(among)
+            if many:
+                getattr(p, f).append(k)
+            else:
+                if getattr(p, f) is not None:
+                    continue
+                setattr(p, f, k)
+            if t is None:
+                anyheld += 1
+            hist.append((p.name, f, k.eClass.name, k.name))
+            live.append(k)
+        for o in live:
+            if rng.random() < 0.4:
+                o.anyRef = rng.choice(live)
+            if rng.random() < 0.4:
+                o.baseRef = rng.choice(live)
+            for t in rng.sample(live, rng.randrange(0, min(3, len(live)) + 1)):
+                o.anyRefs.append(t)
+
+        def dump(rs_):
+            d = {}
+
+            def walk(o):
+                cn = o.eClass.name
+                c = next((x for x in classes if x.name == cn), None)
+                rec = {'class': cn, 'attrs': [(a, o.eGet(a)) for a in attrs.get(c, [])]}
+                for f_, (_, many_) in sorted(feats.items()):
+                    v = getattr(o, f_)
+                    rec[f_] = [x.name for x in v] if many_ else (v.name if v is not None else None)
+                rec['anyRef'] = o.anyRef.name if o.anyRef is not None else None
+                rec['baseRef'] = o.baseRef.name if o.baseRef is not None else None
+                rec['anyRefs'] = [x.name for x in o.anyRefs]
+                d[o.name] = rec
+                for f_, (_, many_) in sorted(feats.items()):
+                    v = getattr(o, f_)
+                    for x in (v if many_ else ([v] if v is not None else [])):
+                        walk(x)
+            for r in rs_:
+                walk(r)
+            return {'roots': [r.name for r in rs_], 'objs': d}
+
+        use_uuid = rng.random() < 0.3
+        opts = {}
+        if rng.random() < 0.3:
+            from pyecore.resources.xmi import XMIOptions
+            opts[XMIOptions.SERIALIZE_DEFAULT_VALUES] = True
+        case = {'scenario': 'open-containment', 'seed': ctx.seed, 'tier': ctx.tier,
+                'history': [it, 'uuid' if use_uuid else 'fragment', sorted(str(k) for k in opts)] + hist}
+        want = dump(roots)
+        cnt += 1
+        objs += len(live)
+        with tempfile.TemporaryDirectory() as tmp:
+            path = os.path.join(tmp, 'm.xmi')
+            try:
+                rs = ResourceSet()
+                rs.metamodel_registry[pkg.nsURI] = pkg
+                res = rs.create_resource(URI(path))
+                res.use_uuid = use_uuid
+                for r in roots:
+                    res.append(r)
+                res.save(options=opts)
+            except Exception as e:  # noqa
+                out.fail({'property': 'C08', 'clause': 'open-containment-save-raised'},
+                         f'save raised {type(e).__name__}: {e} for {hist}', case)
+                continue
+            try:
+                rs2 = ResourceSet()
+                rs2.metamodel_registry[pkg.nsURI] = pkg
+                got = dump(list(rs2.get_resource(URI(path)).contents))
+            except Exception as e:  # noqa
+                got = {'load-raised': f'{type(e).__name__}: {e}'}
+        if got != want:
+            diff = [k for k in want['objs'] if got.get('objs', {}).get(k) != want['objs'][k]][:3]
+            out.fail({'property': 'C08', 'clause': 'open-containment-differs'},
+                     f'containments typed by EObject / a super class: the document loads into a different model: '
+                     f'{[(k, want["objs"][k], got.get("objs", {}).get(k)) for k in diff] or got}', case)
+    out.coverage['open_containment_models_compared'] = cnt
+    out.coverage['open_containment_objects'] = objs
+    out.coverage['open_containment_objects_held_by_EObject_typed_feature'] = anyheld
+
+
+_run3 = run
+
+
+def run(ctx, out):   # noqa: F811
+    _run3(ctx, out)
+    guarded(out, 'scenario family open-containment', open_containment_scenarios, ctx, out)
+
+
+_replay3 = replay
+
+
+def replay(ctx, rep):   # noqa: F811
+    if rep.get('case', {}).get('scenario') == 'open-containment':
+        common.use_repo()
+        return common.scenario_replay(ctx, rep, {'open-containment': open_containment_scenarios})
+    return _replay3(ctx, rep)
